@@ -340,6 +340,43 @@ def run_one(spec: dict) -> dict:
         elif outside and status == 200:
             violate("outside_path_accepted", f"{method} {path_info} payload={json.dumps(payload)} (cwd {os.path.relpath(cwd, world.W)}, root {[os.path.relpath(r, world.W) for r in allowed_roots]}) "
                     f"-> 200 although {os.path.relpath(lexical_target, world.W)} is outside: {text[:300]}")
+        # --- response-based checks (independent of how the request was spelled): whatever a 200 answer serves
+        # must come from under the root in force, whether or not it carries a marker (e.g. /etc/hostname)
+        if status == 200 and viol[0] is None:
+            def files_under(roots):
+                out = set()
+                for r in roots:
+                    for dp, _dn, fn in os.walk(r):
+                        for f in fn:
+                            try:
+                                with open(os.path.join(dp, f), "rb") as fh:
+                                    out.add(fh.read())
+                            except OSError:
+                                pass
+                return out
+
+            if method == "GET":
+                if body not in files_under(allowed_roots):
+                    violate("served_content_not_under_root", f"GET {path_info} -> 200 with a body that is not the content of any file under the static folder: {text[:200]!r}")
+            elif method == "POST" and route == "/script":
+                try:
+                    content = json.loads(text).get("content")
+                except ValueError:
+                    content = None
+                ok_vals = {b.decode("utf-8", "replace") for b in files_under(allowed_roots)} | {"", (payload or {}).get("e", "")}
+                if content is not None and content not in ok_vals:
+                    violate("served_content_not_under_root", f"POST /script payload={json.dumps(payload)} -> 200 with content that is not the content of any file under the root in force "
+                            f"{[os.path.relpath(r, world.W) for r in allowed_roots]}: {content[:200]!r}")
+            elif method == "POST" and route == "/directory":
+                try:
+                    listed = json.loads(text).get("id")
+                except ValueError:
+                    listed = None
+                if listed is not None:
+                    la = os.path.normpath(os.path.join(cwd, listed))
+                    if not any(under(la, r) for r in allowed_roots):
+                        violate("outside_path_accepted", f"POST /directory payload={json.dumps(payload)} -> 200 listing {os.path.relpath(la, world.W)!r}, which is outside the root in force "
+                                f"{[os.path.relpath(r, world.W) for r in allowed_roots]}")
         if status == 200 and not outside and lexical_target is not None:
             probe("inside_served")
             if method == "GET":
